@@ -168,13 +168,13 @@ def duration (value : Value) : Res Value :=
 
 def upper (o : Oracle) (value : Value) : Res Value :=
   match value with
-  | .str s => if Str.isAscii s then .ok (.str (s.map Str.asciiUpper)) else o.ask .strUpper [value] (.panic .unwrap)
+  | .str s => if Str.isAscii s then .ok (.str (s.map Str.asciiUpper)) else o.ask .strUpper [value] (.frontier .strUpper [value])
   | .none => .ok .none
   | _ => .err .invalidType
 
 def lower (o : Oracle) (value : Value) : Res Value :=
   match value with
-  | .str s => if Str.isAscii s then .ok (.str (s.map Str.asciiLower)) else o.ask .strLower [value] (.panic .unwrap)
+  | .str s => if Str.isAscii s then .ok (.str (s.map Str.asciiLower)) else o.ask .strLower [value] (.frontier .strLower [value])
   | .none => .ok .none
   | _ => .err .invalidType
 
